@@ -287,6 +287,14 @@ func corpusHProgs(tc *Toolchain) []*HProg {
 		}
 		out = append(out, hp)
 	}
+	// self-contained reproducers of defects that were found by the simulation and repaired (sim/corpus_heap)
+	reg, _ := filepath.Glob(filepath.Join(simDir, "corpus_heap", "*.ddp"))
+	sort.Strings(reg)
+	for _, f := range reg {
+		if b, err := os.ReadFile(f); err == nil {
+			out = append(out, &HProg{Name: "verif-heap/" + filepath.Base(f), Root: filepath.Base(f), Files: map[string][]byte{filepath.Base(f): b}})
+		}
+	}
 	return out
 }
 
